@@ -4,12 +4,21 @@ from copy import deepcopy
 from pycardano import Asset, AssetName, MultiAsset, ScriptHash, Value
 
 
+SHARE = [False]      # per case: policies of one bundle whose literals are equal hold THE SAME Asset object
+
+
 def mk_ma(lit):
     ma = MultiAsset()
+    seen = {}
     for p, names in lit:
-        a = Asset()
-        for n, q in names:
-            a[AssetName(bytes.fromhex(n))] = q
+        key = json.dumps(names)
+        if SHARE[0] and key in seen:
+            a = seen[key]
+        else:
+            a = Asset()
+            for n, q in names:
+                a[AssetName(bytes.fromhex(n))] = q
+            seen[key] = a
         ma[ScriptHash(bytes.fromhex(p))] = a
     return ma
 
@@ -125,6 +134,7 @@ def dict_case(case):
 def handler(case, payload):
     if 'dict' in case:
         return dict_case(case)
+    SHARE[0] = bool(case.get('share'))
     xs, obs = [], []
     for op in case['ops']:
         k = op[0]
